@@ -111,6 +111,7 @@ STD_HANDLES = {n: WRITER for n in ("S", "Stdout", "Stderr", "StdoutLock", "Stder
 
 # crates/anstream/src/strip.rs: constructors and accessors
 V_STRIP = {
+    "for_ret_state": True,     # a `return` inside an eager `for` carries the loop variables (the stream that was written to)
     "config_param": ("cf", "acfg"),
     "reserved": ["cf"],
     "result": {"err": "ekind"},
@@ -137,6 +138,7 @@ def ctor_shape(coq, pty):
 
 # crates/anstream/src/auto.rs
 V_AUTO = {
+    "for_ret_state": True,     # a `return` inside an eager `for` carries the loop variables (the stream that was written to)
     "config_param": ("cf", "acfg"),
     "reserved": ["cf"],
     "cfg_static": CFG,
@@ -304,6 +306,7 @@ LOCK_ALIASES = {n: LRAW for n in ("S", "Stdout", "Stderr", "StdoutLock", "Stderr
 
 # strip.rs, <StripStream as io::Write>::{write, flush, write_all, write_fmt} over a locked raw stream
 VL_STRIP = {
+    "for_ret_state": True,     # a `return` inside an eager `for` carries the loop variables (the stream that was written to)
     "drops": True,
     "place_writers": {"as_locked_write": pw_as_locked_write},
     "result": {"err": "ekind"},
@@ -330,6 +333,7 @@ ENUM_LINNER = {"coq": "lsinner", "var": "i", "variants": {},
 
 # auto.rs, <AutoStream as io::Write>::{write, write_vectored, flush, write_all, write_fmt} over a locked raw stream
 VL_AUTO = {
+    "for_ret_state": True,     # a `return` inside an eager `for` carries the loop variables (the stream that was written to)
     "config_param": ("cf", "acfg"),
     "reserved": ["cf"],
     "cfg_static": CFG,
